@@ -360,7 +360,57 @@ func drawDepth(t *rapid.T) Case {
 		n = 1
 	}
 	b.addFiles(0)
+	if k == KParam && b.pct(40, "siblings") {
+		return siblingChains(b, b.n(2, 4, "nsiblings"), n, limit)
+	}
 	return chainCase(b, k, n, limit, b.pct(30, "mixed"))
+}
+
+// siblingChains: several parameters of one operation, each the head of its own
+// chain of n references. The limit bounds the nesting, not the number of
+// references resolved one after the other in one context.
+func siblingChains(b *builder, s, n, limit int) Case {
+	sk := newSkeleton(b, "post")
+	ps := A()
+	for c := 0; c < s; c++ {
+		var prevFile string
+		var prevPath []string
+		for i := n - 1; i >= 0; i-- {
+			f, p := b.memberHome(KParam, true)
+			var body *Node
+			if i == n-1 {
+				body = concreteBody(KParam, b.next())
+			} else {
+				body = O("$ref", makeRef(f, prevFile, prevPath, 0))
+			}
+			b.docs[f].Obj(p[0]).Obj(p[1]).Set(p[2], body)
+			prevFile, prevPath = f, p
+		}
+		ps.Items = append(ps.Items, O("$ref", makeRef(rootFile, prevFile, prevPath, 0)))
+	}
+	sk.op.Set("parameters", ps)
+	c := caseFromDocs(b.docs)
+	c.DepthLimit = limit
+	c.Expect = &Expect{Kind: KParam, Len: n, Outcome: "ok-depth"}
+	if n > limit {
+		c.Expect.Outcome = "error-depth"
+	}
+	for tg := range b.tags {
+		c.Tags = append(c.Tags, tg)
+	}
+	sortStrings(c.Tags)
+	c.Tags = append(c.Tags, "sibling-chains")
+	switch {
+	case n == limit:
+		c.Tags = append(c.Tags, "depth:at-limit")
+	case n == limit+1:
+		c.Tags = append(c.Tags, "depth:limit+1")
+	case n > limit:
+		c.Tags = append(c.Tags, "depth:beyond")
+	default:
+		c.Tags = append(c.Tags, "depth:below")
+	}
+	return c
 }
 
 // deepChain is the case for a chain of n references of kind k under the default limit.
